@@ -127,6 +127,9 @@ func (setup *SetupServerController) handlePairVerify(in util.Container) (util.Co
 
 	err := setup.session.SetupPrivateKeyFromClientPublicKey(clientPublicKey)
 	if err != nil {
+		// The public key is invalid – no secret is shared with the client.
+		// The client has to start over, otherwise it could continue with the key exchange.
+		setup.reset()
 		return nil, err
 	}
 
